@@ -1,9 +1,13 @@
 #!/bin/bash
 # developer tool: confirm every seeded change (suite passes with it, demo fails with it / passes without) and run
-# the check of the property it breaks (plus extra checks given in seeded/extra.txt) against it
+# the check of the property it breaks (plus extra checks given in seeded/extra.txt) against it.
+# usage: seeded_all.sh [property-id ...]   (default: all)
 cd "$(dirname "$(readlink -f "$0")")"
-for d in seeded/C*/; do
+props="${@:-C01 C02 C03 C04 C05 C06 C07 C08 C09 C10 C11 C12 C13 C14 C15 C16 C17 C18 C19 C20}"
+for p in $props; do
+ for d in seeded/$p-*/; do
   id=$(basename $d); prop=${id%%-*}
   extra=$(grep "^$id " seeded/extra.txt 2>/dev/null | cut -d' ' -f2-)
   ./seedtest $d $prop $extra 2>&1 | tail -1
+ done
 done
